@@ -227,7 +227,25 @@ def logical_or(left, right):
     if right == NULL:
         return left
 
-    return LogicalOr(left, right)
+    # Alternation is associative and idempotent: flatten nested alternations
+    # and drop options that are already present. Otherwise derivatives such
+    # as (r|s)|s keep growing and the DFA construction never terminates.
+    options = []
+    for option in _or_options(left) + _or_options(right):
+        if option not in options:
+            options.append(option)
+
+    expr = options[0]
+    for option in options[1:]:
+        expr = LogicalOr(expr, option)
+    return expr
+
+
+def _or_options(expr):
+    """Give the list of alternatives of a (nested) alternation."""
+    if isinstance(expr, LogicalOr):
+        return _or_options(expr.lhs) + _or_options(expr.rhs)
+    return [expr]
 
 
 class LogicalOr(Regex):
